@@ -28,7 +28,16 @@ def run_history(ctx, res, rng, hid):
         shutil.rmtree(zdir)
     zdir.mkdir(parents=True)
     cfg = Z.write_config(ctx.tmp / "cfg.yml")
-    G.write_dir(zdir, G.gen_dir(rng, npages=(1, 3), with_zid=0.9, date_prob=0.1, far_dates=False))
+    files = G.gen_dir(rng, npages=(1, 3), with_zid=0.9, date_prob=0.1, far_dates=False)
+    # blanks at the end of a line inside a multi-line note are part of its body (they survive the index and must not make the
+    # note look edited)
+    for rel in list(files):
+        ls = files[rel].split("\n")
+        for i in range(len(ls) - 1):
+            if ls[i].startswith(("  ", "- ", "o ", "x ")) and ls[i].strip() and ls[i + 1].startswith("  ") and ls[i + 1].strip() and rng.random() < 0.3:
+                ls[i] += " " * rng.randint(1, 2)
+        files[rel] = "\n".join(ls)
+    G.write_dir(zdir, files)
     w = H.World(ctx, rng, zdir, cfg)
     if w.run("db", "create") != 0:
         return
